@@ -1,7 +1,9 @@
 /-
   Driver.AesD — line-protocol handlers for crysp/aes.py (C02, C03): answers (model, spec).
     aes.enc x<key> x<block>          aes.dec x<key> x<block>          -> x<hex> | ERR
-    aes.rt  x<key> x<block>          -> enc;dec(enc);dec;enc(dec)     (round trips; model only — the property is the plugin's predicate)
+    aes.rt  x<key> x<block>          -> enc;dec(enc);dec;enc(dec);enc (round trips and the repeated call; model only — the property is the
+    aes.rtd x<key> x<block>          -> enc;dec(enc);dec;enc(dec);dec  plugin's predicate; the real code runs the chain on ONE object, rt
+                                        starting with enc, rtd with dec; the model is a pure function of (key, block))
     aes.gmul a b                     -> decimal | ERR
     aes.gmulc a b                    -> gmul(a,b);gmul(b,a)           (commutativity)
     aes.keyschedule x<key>           -> all Nb(Nr+1) words, concatenated
@@ -29,6 +31,7 @@ def specDec (k b : List Nat) : String :=
 def fmtEB (r : Except Err (List Nat)) : String := fmtE fmtBytes r
 
 def join4 (a b c d : String) : String := a ++ ";" ++ b ++ ";" ++ c ++ ";" ++ d
+def join5 (a b c d e : String) : String := join4 a b c d ++ ";" ++ e
 
 /-- model side of a component op on a state -/
 def compModel (op : String) (s : List Nat) : Option (Except Err (List Nat)) :=
@@ -81,10 +84,15 @@ def handle : Handler := fun op args =>
       let de := e >>= Aes.dec k
       let d := Aes.dec k b
       let ed := d >>= Aes.enc k
-      let m := join4 (fmtEB e) (fmtEB de) (fmtEB d) (fmtEB ed)
       -- no spec column: C03's property on this line is the round trip itself, evaluated on the implementation by the plugin
-      let s := "-"
-      pure (m, s)
+      pure (join5 (fmtEB e) (fmtEB de) (fmtEB d) (fmtEB ed) (fmtEB e), "-")
+  | "aes.rtd", [k, b] => do
+      let k ← parseBytes? k; let b ← parseBytes? b
+      let e := Aes.enc k b
+      let de := e >>= Aes.dec k
+      let d := Aes.dec k b
+      let ed := d >>= Aes.enc k
+      pure (join5 (fmtEB e) (fmtEB de) (fmtEB d) (fmtEB ed) (fmtEB d), "-")
   | "aes.gmul", [a, b] => do
       let a ← parseNat? a; let b ← parseNat? b
       pure (fmtE toString (Aes.gmul a b), if a < 256 && b < 256 then toString (Spec.Aes.gfmul a b) else "-")
